@@ -7,10 +7,12 @@ package main
 // status / error pipe into _errors/_assert/_complete, signal handling, locks.
 
 import (
+	"archive/zip"
 	"bufio"
 	"bytes"
 	"encoding/json"
 	"fmt"
+	"io"
 	"math/rand"
 	"os"
 	"os/exec"
@@ -223,6 +225,11 @@ type TBSignal struct {
 	// OnComplete > 0: instead of waiting AfterMs, send the signal at the moment the
 	// OnComplete-th job (split, chunk or join) has recorded its completion on disk.
 	OnComplete int `json:"on_complete,omitempty"`
+	// OnFile != "": send the signal as soon as a file with this name exists anywhere in the pipestance
+	OnFile string `json:"on_file,omitempty"`
+	// Group: deliver INT/TERM to mrp's whole process group (as a terminal's ctrl-C or a scheduler
+	// does), so that the job monitors receive it at the same instant
+	Group bool `json:"group,omitempty"`
 }
 
 type TBSpec struct {
@@ -235,7 +242,8 @@ type TBSpec struct {
 	Signals []TBSignal // one mrp incarnation per entry, then a final uninterrupted one
 	Strict  string
 	Timeout time.Duration
-	Retries int // --autoretry
+	Retries int  // --autoretry
+	Zip     bool // --zip
 }
 
 type TBIncarnation struct {
@@ -281,6 +289,9 @@ func (e *TBEnv) Run(spec *TBSpec, rng *rand.Rand) *TBResult {
 			args = append(args, "--strict="+spec.Strict)
 		}
 		args = append(args, fmt.Sprintf("--autoretry=%d", spec.Retries))
+		if spec.Zip {
+			args = append(args, "--zip")
+		}
 		cmd := exec.Command(e.Mrp, args...)
 		cmd.Dir = dir
 		cmd.Env = append(os.Environ(), "VERIF_TB_MRO="+mro, "VERIF_TB_CTL="+ctlPath, "VERIF_TB_LOG="+logPath,
@@ -297,7 +308,33 @@ func (e *TBEnv) Run(spec *TBSpec, rng *rand.Rand) *TBResult {
 		done := make(chan error, 1)
 		go func() { done <- cmd.Wait() }()
 		var sigTimer <-chan time.Time
-		if sig != nil && sig.OnComplete > 0 {
+		if sig != nil && sig.OnFile != "" {
+			ch := make(chan time.Time, 1)
+			sigTimer = ch
+			stopWatch := make(chan struct{})
+			defer close(stopWatch)
+			go func() {
+				for {
+					select {
+					case <-stopWatch:
+						return
+					default:
+					}
+					found := false
+					filepath.WalkDir(res.PsDir, func(p string, d os.DirEntry, err error) error {
+						if err == nil && !d.IsDir() && d.Name() == sig.OnFile {
+							found = true
+						}
+						return nil
+					})
+					if found {
+						ch <- time.Now()
+						return
+					}
+					time.Sleep(500 * time.Microsecond)
+				}
+			}()
+		} else if sig != nil && sig.OnComplete > 0 {
 			ch := make(chan time.Time, 1)
 			sigTimer = ch
 			stopWatch := make(chan struct{})
@@ -353,6 +390,8 @@ func (e *TBEnv) Run(spec *TBSpec, rng *rand.Rand) *TBResult {
 					syscall.Kill(-cmd.Process.Pid, syscall.SIGKILL)
 				} else if sig.Sig == "KILL" {
 					// kill outright: mrp and (as a terminal or scheduler would) its whole process group
+					syscall.Kill(-cmd.Process.Pid, s)
+				} else if sig.Group {
 					syscall.Kill(-cmd.Process.Pid, s)
 				} else {
 					cmd.Process.Signal(s)
@@ -421,6 +460,19 @@ func (e *TBEnv) Run(spec *TBSpec, rng *rand.Rand) *TBResult {
 	top := topCallId(spec.Src)
 	if b, err := os.ReadFile(filepath.Join(res.PsDir, top, "fork0", "_outs")); err == nil {
 		res.TopOuts = compactJSON(b)
+	} else if zr, err := zip.OpenReader(filepath.Join(res.PsDir, "_metadata.zip")); err == nil {
+		// --zip: the metadata files of a finished pipestance live in the archive
+		for _, f := range zr.File {
+			if f.Name == filepath.Join(top, "fork0", "_outs") {
+				if rc, err := f.Open(); err == nil {
+					if b, err := io.ReadAll(rc); err == nil {
+						res.TopOuts = compactJSON(b)
+					}
+					rc.Close()
+				}
+			}
+		}
+		zr.Close()
 	}
 	res.Tree = dirTree(res.PsDir)
 	if res.Final == "timeout" {
